@@ -1050,6 +1050,7 @@ def run(chk, cases=None):
 IMPORTS_SRC = IMPORTS + "From PV Require C01.SrcRun.\n"
 SRC_TIE_SAMPLE = 1500
 SRC_THEOREMS = ["c01_source_loop_body_is_step_row", "c01_source_loop_is_rows", "c01_source_edit_distance_is_model",
+                "c01_source_string_matching_is_model", "c01_source_string_matching_is_lev",
                 "c01_source_edit_distance_is_lev"]
 
 
